@@ -88,20 +88,32 @@ def make_event(kind, c, s=1.0, direction=0, terminal=False):
 
 def exact_h(kind, t, y_exact):
     y = y_exact(t)
-    return dict(y0=y[0], y1=y[1], time=t, energy=y[0] * y[1], deriv=y[1])[kind]
+    return dict(y0=y[0], y1=y[1], time=t, energy=y[0] * y[1], deriv=getattr(y_exact, "omega", 1.0) * y[1])[kind]
 
 
 def harmonic(t, y):
     return np.array([y[1], -y[0]])
 
 
-def harmonic_exact(t0):
-    return lambda t: np.array([math.cos(t - t0), -math.sin(t - t0)])
+def harmonic_w(omega):
+    """the same circle run at angular frequency omega (omega = 1: `harmonic` itself, bit for bit)"""
+    if omega == 1.0:
+        return harmonic
+    return lambda t, y: np.array([omega * y[1], -omega * y[0]])
 
 
-def run_case(method, t0, tf, dt, events, dense, tol=1e-9):
+def harmonic_exact(t0, omega=1.0):
+    f = lambda t: np.array([math.cos(omega * (t - t0)), -math.sin(omega * (t - t0))])
+    if omega != 1.0:
+        f2 = lambda t: f(t)
+        f2.omega = omega
+        return f2
+    return f
+
+
+def run_case(method, t0, tf, dt, events, dense, tol=1e-9, omega=1.0):
     spy = Spy()
-    ode = de.OdeSystem(harmonic, y0=np.array([1.0, 0.0]), t=(t0, tf), dt=dt, dense_output=dense, rtol=tol, atol=tol * 1e-2)
+    ode = de.OdeSystem(harmonic_w(omega), y0=np.array([1.0, 0.0]), t=(t0, tf), dt=dt, dense_output=dense, rtol=tol, atol=tol * 1e-2)
     ode.set_method(method)
     with spy:
         try:
